@@ -45,6 +45,8 @@ type tierCfg struct {
 
 var tiers = map[string]tierCfg{
 	"C04": {QuickRuns: 64000, ThoroughRuns: 3200000, Workers: 16, Enum: true, EnumQuickStride: 1},
+	"C12": {QuickRuns: 1600, ThoroughRuns: 80000, Workers: 16},
+	"C20": {QuickRuns: 1600, ThoroughRuns: 80000, Workers: 16},
 	"C13": {QuickRuns: 3200, ThoroughRuns: 160000, Workers: 16},
 	"C14": {QuickRuns: 1600, ThoroughRuns: 60000, Workers: 8},
 	"C18": {QuickRuns: 32000, ThoroughRuns: 1600000, Workers: 16},
@@ -348,7 +350,7 @@ func cmdCheck(id string, tier string, seed int64, keep bool) int {
 	buildS := time.Since(start).Seconds()
 
 	per := (total + workers - 1) / workers
-	timeout := 30*time.Minute + time.Duration(per)*200*time.Millisecond
+	timeout := 10*time.Minute + time.Duration(per)*200*time.Millisecond
 	if cfg.PerRunTimeout > 0 {
 		timeout = 10*time.Minute + time.Duration(per)*cfg.PerRunTimeout
 	}
